@@ -294,6 +294,11 @@ class Interp(object):
         if isinstance(v, VList):
             return len(v.items) > 0
         if isinstance(v, VDict):
+            pres = getattr(v, 'present', None)
+            if pres:
+                if any(k not in pres for k in v.items):
+                    return True
+                return z_or(*pres.values())
             return len(v.items) > 0
         if isinstance(v, VSet):
             return len(v.items) > 0
@@ -532,7 +537,7 @@ class Interp(object):
             if kw.arg is None:
                 d = self.eval(kw.value, frame)
                 if isinstance(d, VDict):
-                    for k, v in d.items.items():
+                    for k, v in self.resolve_presence(d).items():
                         kwargs[k] = v
                 else:
                     self.undecided('** of non-concrete mapping', node)
@@ -670,6 +675,14 @@ class Interp(object):
             r = self.contains(b, a, node)
             return self._neg(r) if isinstance(op, ast.NotIn) else self._b(r)
         # ordering
+        if isinstance(a, Native) and hasattr(a, 'special'):
+            r = a.special(self, _CMPDUNDER[type(op)], [b])
+            if r is not NotImplemented:
+                return r
+        if isinstance(b, Native) and hasattr(b, 'special'):
+            r = b.special(self, _CMPDUNDER[_SWAP[type(op)]], [a])
+            if r is not NotImplemented:
+                return r
         if self.is_foreign(a) or self.is_foreign(b):
             return self.real_call(_PYCMP[type(op)], [a, b], {}, node, 'sql')
         if is_concrete(a) and is_concrete(b):
@@ -842,6 +855,10 @@ class Interp(object):
         if isinstance(v, VDict):
             if is_concrete(k):
                 if k in v.items:
+                    pres = getattr(v, 'present', None)
+                    if pres and k in pres:
+                        if not self.ex.branch(pres[k]):
+                            self.raise_(KeyError, k)
                     return v.items[k]
                 if v.default is not None:
                     d = self.call(v.default, [], {})
@@ -937,6 +954,9 @@ class Interp(object):
     def contains(self, c, x, node=None):
         if isinstance(c, VDict):
             if is_concrete(x):
+                pres = getattr(c, 'present', None)
+                if pres and x in pres:
+                    return pres[x]
                 return x in c.items
             return z_or(*[ops.z3bool(self.truth_term(self._b(self.eq(x, k))))
                           for k in c.items])
@@ -999,6 +1019,27 @@ class Interp(object):
             return self.fresh('substr', 'str')
         self.undecided('slice of %r' % (v,), node)
 
+    def copy_dict(self, d):
+        c = type(d)(d.items) if type(d) is not VDict else VDict(d.items, d.default)
+        if getattr(d, 'present', None) is not None:
+            c.present = dict(d.present)
+            c.extra_allowed = getattr(d, 'extra_allowed', False)
+        return c
+
+    def resolve_presence(self, d):
+        """Fork on the optional keys of a JSON object; returns the dict of
+        the keys present on this path."""
+        pres = getattr(d, 'present', None)
+        if not pres:
+            return d.items
+        out = {}
+        for k, v in d.items.items():
+            if k in pres:
+                if not self.ex.branch(pres[k]):
+                    continue
+            out[k] = v
+        return out
+
     def iter_concrete(self, v, node=None):
         """Python list of the elements of a value with a concrete number of
         elements."""
@@ -1009,7 +1050,7 @@ class Interp(object):
         if isinstance(v, VSet):
             return sorted(v.items, key=repr)
         if isinstance(v, VDict):
-            return list(v.items.keys())
+            return list(self.resolve_presence(v).keys())
         if isinstance(v, str):
             return list(v)
         if isinstance(v, SSet) and v.elems is not None and len(v.elems) <= 1:
@@ -1079,6 +1120,11 @@ class Interp(object):
                     self.raise_(AttributeError, name)
             return self.bind(raw, None, v)
         if isinstance(v, types.ModuleType):
+            if v.__name__.startswith(self.registry.get('raw_modules', ('\0',))):
+                try:
+                    return getattr(v, name)
+                except AttributeError:
+                    self.raise_(AttributeError, name)
             try:
                 return self.lift(getattr(v, name))
             except AttributeError:
@@ -1309,6 +1355,9 @@ class Interp(object):
         if cls in reg:
             return reg[cls](self, args, kwargs)
         if isinstance(cls, type) and issubclass(cls, BaseException):
+            hook = self.registry.get('exc_fields')
+            if hook is not None:
+                return ExcVal(cls, args, hook(cls, args, kwargs))
             return ExcVal(cls, args, kwargs)
         mod = getattr(cls, '__module__', '') or ''
         if mod.startswith('placement.') and not mod.startswith('placement.tests'):
@@ -1574,7 +1623,8 @@ class Interp(object):
         if isinstance(it, Native) and hasattr(it, 'iter_value'):
             it = it.iter_value(self)
         if isinstance(it, (SList, SSet, SMap)) or (
-                isinstance(it, _View) and it.symbolic()):
+                isinstance(it, _View) and it.symbolic()) or (
+                isinstance(it, Native) and hasattr(it, 'sequence')):
             if isinstance(it, SSet) and it.elems is not None and len(it.elems) <= 1:
                 pass
             else:
@@ -1817,6 +1867,8 @@ class Interp(object):
             return self._enum(it.dom, it.kty, name, it)
         if isinstance(it, _View):
             return it.sequence(self, name)
+        if isinstance(it, Native) and hasattr(it, 'sequence'):
+            return it.sequence(self, name)
         self.undecided('loop over %r' % (it,))
 
     def _enum(self, arr, ety, name, origin):
@@ -1853,7 +1905,8 @@ class Interp(object):
             first = first.iter_value(self)
         symbolic = isinstance(first, (SList, SMap)) or \
             (isinstance(first, SSet) and not (first.elems is not None and len(first.elems) <= 1)) or \
-            (isinstance(first, _View) and first.symbolic())
+            (isinstance(first, _View) and first.symbolic()) or \
+            (isinstance(first, Native) and hasattr(first, 'sequence'))
         if symbolic:
             if len(gens) != 1:
                 self.undecided('nested comprehension over symbolic collection',
@@ -2142,6 +2195,11 @@ class _ContainerMethod(object):
         default = a[1] if len(a) > 1 else None
         if isinstance(d, VDict):
             if is_concrete(a[0]):
+                pres = getattr(d, 'present', None)
+                if pres and a[0] in pres:
+                    if I.ex.branch(pres[a[0]]):
+                        return d.items[a[0]]
+                    return default
                 return d.items.get(a[0], default)
             for ck, cv in d.items.items():
                 if I.ex.branch(ops.z3bool(I.truth_term(I._b(I.eq(a[0], ck))))):
@@ -2170,12 +2228,36 @@ class _ContainerMethod(object):
     def m_setdefault(self, I, d, a, k, n):
         if isinstance(d, VDict) and is_concrete(a[0]):
             return d.items.setdefault(a[0], a[1] if len(a) > 1 else None)
+        if isinstance(d, SMap) and d.default is None:
+            kt = to_term(a[0], d.kty)
+            if not I.ex.branch(z3.Select(d.dom, kt)):
+                I.setitem(d, a[0], a[1] if len(a) > 1 else None, n)
+            return from_term(z3.Select(d.val, kt), d.vty)
         I.undecided('.setdefault on %r' % (d,), n)
 
     def m_update(self, I, d, a, k, n):
         if isinstance(d, VDict):
             for o in a:
-                if isinstance(o, VDict):
+                if isinstance(o, VDict) and getattr(o, 'present', None):
+                    for kk, vv in o.items.items():
+                        pb = o.present.get(kk)
+                        if pb is None:
+                            d.items[kk] = vv
+                            if getattr(d, 'present', None):
+                                d.present.pop(kk, None)
+                        elif kk in d.items and not (getattr(d, 'present', None)
+                                                    and kk in d.present):
+                            try:
+                                d.items[kk] = I.merge(pb, vv, d.items[kk], n)
+                            except Undecided:
+                                if I.ex.branch(pb):
+                                    d.items[kk] = vv
+                        else:
+                            if I.ex.branch(pb):
+                                d.items[kk] = vv
+                                if getattr(d, 'present', None):
+                                    d.present.pop(kk, None)
+                elif isinstance(o, VDict):
                     d.items.update(o.items)
                 else:
                     I.undecided('dict.update with %r' % (o,), n)
@@ -2189,7 +2271,7 @@ class _ContainerMethod(object):
 
     def m_copy(self, I, d, a, k, n):
         if isinstance(d, VDict):
-            return VDict(d.items, d.default)
+            return I.copy_dict(d)
         if isinstance(d, VList):
             return VList(d.items)
         if isinstance(d, VSet):
